@@ -21,5 +21,10 @@ def main(run):
     if want(run, 'P') or want(run, 'T'):
       with anchored(run, 'C01/P'):
         deductive(run)
+    if want(run, 'F'):
+      with anchored(run, 'C01/F'):
+        # the observables of this property are (or read) memoised values: no covered mutator leaves one of them stale (engine F restricted to the keys these observables read)
+        from checks.fpart import run_F
+        run_F(run, entry_points=['atoms_order', '__str__', '__hash__', '__eq__', '__format__', 'smiles_atoms_order', '_chiral_morgan', 'int_adjacency'])
     bounded_part(run, 'C01')
     return FINISH
